@@ -5,7 +5,8 @@
    funcToTyps map[string][]types.Type   }     tbl : list (name * tys), in insertion order
    names []string, typss [][]types.Type }       (every insertion appends to all three)
    generated map[string]bool                  generated : list name
-   reserved  map[string]struct{}              reserved  : list name
+   reserved  map[string]struct{}              reserved  : list name (shared by the typesMaps of
+                                                a package; registration adds the name to it)
    prefix, autoname, dedup                    prefix, autoname, dedup
 
    `tys` is one argument type list, `teq this that` is `eq(this, that)` of typesmap.go (every
@@ -81,8 +82,14 @@ Definition occupied (s : tm) (n : name) : bool :=
 Definition new_name (s : tm) (q : tys) : option name :=
   search (occupied s) (prefix s) (hint q) (S (List.length (tbl s) + List.length (reserved s))) 0.
 
+(* the registration at the end of SetFuncName: funcToTyps[n] = q, names/typss appended, and
+   (since "fix: helper names minted by one plugin no longer collide with another plugin's
+   names") the name is recorded in the reserved set, which all typesMaps of a package share *)
 Definition insert (s : tm) (n : name) (q : tys) : tm :=
-  mk_tm (tbl s ++ [(n, q)])%list (generated s) (reserved s) (prefix s) (autoname s) (dedup s).
+  mk_tm (tbl s ++ [(n, q)])%list (generated s) (n :: reserved s) (prefix s) (autoname s) (dedup s).
+
+Definition set_reserved (s : tm) (r : list name) : tm :=
+  mk_tm (tbl s) (generated s) r (prefix s) (autoname s) (dedup s).
 
 Inductive sres :=
 | SOk (n : name)                 (* the name the call site must use *)
@@ -169,14 +176,16 @@ Fixpoint add_all (s : tm) (calls : list (name * tys)) : ares :=
       end
   end.
 
-(* ---- several plugins: one typesMap each, calls dispatched by plugin index ---- *)
+(* ---- several plugins: one typesMap each, calls dispatched by plugin index; the reserved set
+   is ONE Go map shared by all typesMaps of the package, so what one plugin records there is
+   seen by all ---- *)
 
 Inductive pres :=
 | POk (st : nat -> tm) (names : list name)
 | PErr (i : nat) (e : sres).
 
-Definition upd (st : nat -> tm) (p : nat) (s : tm) : nat -> tm :=
-  fun p' => if Nat.eqb p' p then s else st p'.
+Definition share (st : nat -> tm) (p : nat) (s : tm) : nat -> tm :=
+  fun p' => if Nat.eqb p' p then s else set_reserved (st p') (reserved s).
 
 Fixpoint add_pkg (st : nat -> tm) (calls : list (nat * (name * tys))) : pres :=
   match calls with
@@ -184,7 +193,7 @@ Fixpoint add_pkg (st : nat -> tm) (calls : list (nat * (name * tys))) : pres :=
   | (p, (fn, q)) :: r =>
       match SetFuncName (st p) fn q with
       | (s', SOk m) =>
-          match add_pkg (upd st p s') r with
+          match add_pkg (share st p s') r with
           | POk sf ms => POk sf (m :: ms)
           | PErr i e => PErr (S i) e
           end
@@ -208,7 +217,8 @@ Arguments AOk {tys}.
 Arguments AErr {tys}.
 Arguments POk {tys}.
 Arguments PErr {tys}.
-Arguments upd {tys}.
+Arguments share {tys}.
+Arguments set_reserved {tys}.
 
 (* the iteration order of the repaired nameOf: registration order *)
 Definition in_order {tys : Type} (t : list (name * tys)) : list (name * tys) := t.
